@@ -422,6 +422,9 @@ def evaluate(case, io, mo, S=None, memreports=None):
         exp = pm[3]
         if op == "locate":
             q = bytes.fromhex(arg) if arg != "-" else b""
+            if not rest.split() or not rest.split()[0].isdigit():
+                fails.append(Fail(op, "locate gave no answer: %r" % rest[:60], cmd, cl, dname))
+                continue
             got = int(rest.split()[0])
             if exp.strip() == "0":
                 if got != 0:
@@ -475,6 +478,9 @@ def evaluate(case, io, mo, S=None, memreports=None):
                 if s[0] != e[0]:
                     fails.append(Fail(op, "extractRank(%s) = %r, k-th smallest is %r" % (arg, s[0], e[0]), cmd, cl, dname))
             else:
+                if not rest.split() or not rest.split()[0].isdigit():
+                    fails.append(Fail(op, "locateRank gave no answer: %r" % rest[:60], cmd, cl, dname))
+                    continue
                 got = int(rest.split()[0])
                 kk = int(arg)
                 if 1 <= kk <= n and tab.get(got) != S[kk - 1]:
